@@ -82,7 +82,7 @@ def run_workers(pid: str, job: dict, outdir: str, timeout_s: float) -> List[dict
 def merge(results: List[dict]) -> dict:
     out: Dict[str, Any] = {"evaluations": 0, "counters": Counter(), "hashes": set(),
                            "violations": [], "samples": [], "failed_workers": [],
-                           "aborted": 0, "extra": {}, "exhausted": []}
+                           "aborted": 0, "extra": {}, "exhausted": [], "reach": []}
     for r in results:
         if r.get("worker_failed"):
             out["failed_workers"].append({"windex": r.get("windex"), "rc": r.get("rc")})
@@ -98,6 +98,8 @@ def merge(results: List[dict]) -> dict:
         for k, v in r.get("extra", {}).items():
             out["extra"].setdefault(k, []).append(v)
         out["exhausted"].extend(r.get("exhausted", []))
+        if r.get("reach"):
+            out["reach"].append(r["reach"])
     return out
 
 
@@ -180,6 +182,17 @@ def main(argv=None):
                            "order in which in-flight replies can complete at quiescent points of the loop (capped per "
                            "scenario; dfs_scenarios_exhausted = schedule space enumerated completely); every schedule is "
                            "judged by the same oracle")
+    try:
+        from vlab import reach
+        anchors = []
+        with open(os.path.join(HERE, "properties.jsonl")) as f:
+            for line in f:
+                pr = json.loads(line)
+                if pr["id"] == pid:
+                    anchors = pr.get("anchors", {}).get("files", [])
+        cov["code_reach"] = reach.summarize(REPO, m["reach"], anchors)
+    except Exception as ex:  # noqa: BLE001  (evidence about the workload only; never decides)
+        cov["code_reach"] = {"note": f"not available: {type(ex).__name__}: {ex}"}
     cov["known_findings_matched"] = dict(known)
     cov["unlisted_violations"] = len(unlisted)
     cov["failed_workers"] = m["failed_workers"]
